@@ -517,6 +517,11 @@ impl<'a> LedgerGen<'a> {
                 self.rng.shuffle(&mut coms);
                 coms.truncate(ncom.max(1));
                 let n_last = coms.len();
+                // one omitted posting absorbing every commodity at once
+                let absorb_all = kind == 1
+                    && coms.len() >= 2
+                    && !unbalance
+                    && self.rng.chance(self.cfg.p_omit_last.0, self.cfg.p_omit_last.1 * 2);
                 for (ci, c) in coms.iter().enumerate() {
                     let cw = self.written_commodity(c);
                     let n = 1 + self.rng.usize(3);
@@ -533,6 +538,13 @@ impl<'a> LedgerGen<'a> {
                         p.amount = Some(self.expr_for(v, &cw, cmp));
                         p.tab = self.rng.chance(1, 8);
                         t.postings.push(p);
+                    }
+                    if absorb_all {
+                        if ci + 1 == n_last {
+                            let a = self.pick_account();
+                            t.postings.push(Posting::new(&self.written_account(&a)));
+                        }
+                        continue;
                     }
                     let a = self.pick_account();
                     let mut p = Posting::new(&self.written_account(&a));
